@@ -8,7 +8,7 @@ from hexital.core.candle import Candle
 from hexital.core.candle_manager import CandleManager
 from hexital.candlesticks.heikinashi import HeikinAshi
 
-from . import wire
+from . import specs, wire
 
 
 class Diverged(Exception):
@@ -107,6 +107,46 @@ class ImplRunner:
 
     def reset(self):
         self.mgr = None
+        self.ind = None
+
+    def _ind_op(self, fn):
+        ind = self.ind
+        if ind is None:
+            return ["bad-op"]
+
+        def f():
+            self.ind = None
+            fn(ind)
+            self.ind = ind
+
+        return self._try(f)
+
+    def _acc(self, what, ps):
+        ind = self.ind
+        name = ps.get("name")
+        idx = None if ps.get("idx") is None else int(ps["idx"])
+        try:
+            if what == "name":
+                return ind.name
+            if what == "active":
+                return str(ind._active_index)
+            if what == "has_reading":
+                return "true" if ind.has_reading else "false"
+            if what == "reading":
+                return wire.enc_val(ind.reading(name, idx))
+            if what == "prev_reading":
+                return wire.enc_val(ind.prev_reading(name))
+            if what == "as_list":
+                return " ".join(wire.enc_val(v) for v in ind.as_list(name))
+            if what == "reading_count":
+                return str(ind.reading_count(name))
+            if what == "reading_period":
+                return "true" if ind.reading_period(int(ps.get("period") or 1), name, idx) else "false"
+            if what == "candles_sum":
+                return wire.enc_val(ind.candles_sum(int(ps.get("length") or 1), name, idx))
+        except Exception as e:  # noqa
+            return wire.enc_err(e)
+        return "bad-acc"
 
     def run(self, lines):
         out = []
@@ -166,6 +206,43 @@ class ImplRunner:
                 self.mgr = m
 
             return self._try(f)
+        if op == "ind":
+            ps, rest = split_params(rest)
+            cs = mk_candles(int(ps["n"]), rest)
+            spec = specs.params_to_spec(ps)
+            box = {}
+
+            def f():
+                self.ind = None
+                box["i"] = specs.build_indicator(spec, cs)
+                self.ind = box["i"]
+
+            r = self._try(f)
+            return [f"ok name={self.ind.name}"] if r == ["ok"] else r
+        if op == "iapp":
+            ps, rest = split_params(rest)
+            cs = mk_candles(int(ps["n"]), rest)
+            return self._ind_op(lambda i: i.append(cs))
+        if op == "icalc":
+            return self._ind_op(lambda i: i.calculate())
+        if op == "icidx":
+            ps, rest = split_params(rest)
+            s_ = int(ps["s"])
+            e_ = None if ps.get("e") is None else int(ps["e"])
+            return self._ind_op(lambda i: i.calculate_index(s_, e_))
+        if op == "ipurge":
+            return self._ind_op(lambda i: i.purge())
+        if op == "irecalc":
+            return self._ind_op(lambda i: i.recalculate())
+        if op == "isnap":
+            if self.ind is None:
+                return ["noind"]
+            return wire.snap_lines(self.ind.candles)
+        if op == "iacc":
+            if self.ind is None:
+                return ["noind"]
+            ps, _ = split_params(rest[1:])
+            return [self._acc(rest[0], ps)]
         if op == "msnap":
             if self.mgr is None:
                 return ["nomgr"]
